@@ -596,3 +596,22 @@ def eval_function(ctx, fi: FuncInfo, env: dict):
         except (NotConst, AnalysisError, TypeError, KeyError):
             return False, None
     return False, None
+
+
+def open_args(call: ast.Call):
+    """(file expression, mode string or None when not a literal, {other keyword: value}) of a call of the builtin open()."""
+    kw = {k.arg: k.value for k in call.keywords if k.arg}
+    file = call.args[0] if call.args else kw.get('file')
+    mode = call.args[1] if len(call.args) > 1 else kw.get('mode')
+    if mode is None:
+        m = 'r'
+    elif isinstance(mode, ast.Constant) and isinstance(mode.value, str):
+        m = mode.value
+    else:
+        m = None
+    rest = {k: v for k, v in kw.items() if k not in ('file', 'mode')}
+    names = ['file', 'mode', 'buffering', 'encoding', 'errors', 'newline', 'closefd', 'opener']
+    for i, a in enumerate(call.args[2:], start=2):
+        if i < len(names):
+            rest[names[i]] = a
+    return file, m, rest
